@@ -80,7 +80,7 @@ func c46Options(all bool) []c46Opt {
 	var out []c46Opt
 	seps := c46Separators()
 	if !all {
-		seps = []string{"~", "::", ""}
+		seps = []string{"~", ""}
 	}
 	for _, prefix := range []bool{false, true} {
 		p := ""
@@ -139,7 +139,7 @@ func c46ASValues(thorough bool) []uint64 {
 	return out
 }
 
-var c46FewAS = []uint64{0, 1, 10, 64512, 1<<32 - 1, 1 << 32, 0xff00_0000_0110, 0x1_0000_0000_0, 0xa_000b_000c, 1<<48 - 1}
+var c46FewAS = []uint64{0, 64512, 1<<32 - 1, 1 << 32, 0xff00_0000_0110, 1<<48 - 1}
 var c46FewISD = []uint64{0, 1, 9, 10, 99, 100, 999, 1000, 9999, 10000, 65534, 65535}
 
 // ---- bookkeeping ----
@@ -373,18 +373,21 @@ func (c *c46Ctx) compare(tg *c46Target, s string, t *c46Tally) bool {
 
 // ---- Part B1: all strings up to length L over a small alphabet ----
 
-const c46Alphabet = "019aFg:-+ _"
+// quick: 9 characters (digits incl. the decimal/hex boundary digits, lower/upper hex letter, the three structural
+// characters, a sign); thorough adds a non-hex letter and the blank.
+func c46Alphabet() string { return mc.Pick("019aF:-+_", "019aFg:-+ _") }
 
 func (c *c46Ctx) shortStrings(maxLen int) {
 	var tgs []c46Target
 	for _, tg := range c46Targets() {
 		switch tg.name {
 		case "ParseSVC", "ParseHost", "ParseAddr", "Addr.UnmarshalText", "ParseAddrPort", "AS.UnmarshalText", "IA.Set",
-			"ParseFormattedIA(prefix)", "ParseFormattedIA(prefix+file)":
+			"ParseFormattedIA(prefix)", "ParseFormattedIA(prefix+file)", "ParseFormattedAS(sep(\"::\"))":
 			continue // no ',', '[', letters of the names in this alphabet: covered by the edit neighbourhoods
 		}
 		tgs = append(tgs, tg)
 	}
+	c46Alphabet := c46Alphabet()
 	k := len(c46Alphabet)
 	// shards: the first two characters (plus the strings shorter than 2)
 	shards := k*k + 1
@@ -496,7 +499,7 @@ func (c *c46Ctx) editNeighbourhoods() {
 			jobs = append(jobs, job{&tgs[i], s})
 		}
 	}
-	twoMax := mc.Pick(10, 22) // double edits for seeds up to this length
+	twoMax := mc.Pick(8, 22) // double edits for seeds up to this length
 	// per target: set of texts already evaluated (distinct count across seeds of one target)
 	var seenMu sync.Mutex
 	seen := map[string]map[string]struct{}{}
@@ -888,9 +891,9 @@ func TestC46(t *testing.T) {
 	r := mc.NewRun(t, "C46", mc.Exploration)
 	r.Rule = "A: values x options -> text compared with a clean-room formatter, then parsed back (all 65536 ISDs; AS = all " +
 		"combinations of 16-bit parts from a boundary alphabet + decimal/2^32/2^48 boundaries; ISD-AS = all ISDs x 10 ASes and " +
-		"12 ISDs x all ASes; options = prefix on/off x {default, file, every printable non-hex non-'-' separator, multi-char, " +
+		"12 (thorough: 3 for the large AS set) ISDs x all ASes; options = prefix on/off x {default, file, every printable non-hex non-'-' separator, multi-char, " +
 		"empty}; all 65536 SVC values; IPv4/IPv6/zone/v4-mapped/SVC hosts x 6 ISD-AS x 5 ports). B: texts -> every parser vs a " +
-		"clean-room three-verdict parser (all strings up to length L over \"" + c46Alphabet + "\"; all texts within edit " +
+		"clean-room three-verdict parser (all strings up to length L over \"" + c46Alphabet() + "\"; all texts within edit " +
 		"distance 1 (2 for short seeds) of seed texts over a 25-character alphabet). A case = (API, value or text, options); " +
 		"non-trivial = value round trip, or a text that the reference or the implementation gives a reading"
 	r.Assumptions = []string{
@@ -928,7 +931,7 @@ func TestC46(t *testing.T) {
 	c.roundTripIA(allISD, c46FewAS, optsFew, true)
 	c.roundTripIA(c46FewISD, asesQ, optsAll, true)
 	if mc.Thorough() {
-		c.roundTripIA(c46FewISD, ases, optsFew, true)
+		c.roundTripIA([]uint64{0, 1, 65535}, ases, optsFew, true)
 	}
 	phase("A:ia")
 	c.roundTripSVC()
@@ -937,10 +940,10 @@ func TestC46(t *testing.T) {
 
 	maxLen := mc.Pick(6, 7)
 	r.Extra["short_string_max_len"] = maxLen
-	c.shortStrings(maxLen)
-	phase("B:short-strings")
 	c.editNeighbourhoods()
 	phase("B:edit-neighbourhoods")
+	c.shortStrings(maxLen)
+	phase("B:short-strings")
 	r.Extra["phase_wall_s"] = phases
 
 	// merge tallies into the run
